@@ -70,7 +70,7 @@ def c13_2(ctx, ss):
     for val, key in ((True, "decay_pattern"), (False, "sub_decay_pattern")):
         k = ckey(ff, None, f"top={val}")
         cands = got.get(val, [])
-        want = f"DescriptorFormat.config['{key}'].format(**{{'mother': mother, 'daughters': daughters}})"
+        want = f"DescriptorFormat.config['{key}'].format(mother=mother, daughters=daughters)"
         if len(cands) == 1 and txt(cands[0][1]) == want:
             ctx.holds("C13.2", k, where(ff, cands[0][0]), f"top={val} ⇒ config['{key}'].format(mother=mother, daughters=daughters)", 3)
         else:
